@@ -2,6 +2,7 @@
 namespace Pkgcore.Generated.C23
 def preMergeOrder : List String := ["ldconfig", "fix_uid_perms", "fix_set_bits", "fix_gid_perms", "detect_world_writable", "InfoRegen", "CommonDirectoryModes"]
 def replacePreMergeOrder : List String := ["ldconfig", "fix_uid_perms", "fix_set_bits", "fix_gid_perms", "detect_world_writable", "InfoRegen", "CommonDirectoryModes"]
+def ebuildPreMergeOrder : List String := ["preinst_contents_reset", "ldconfig", "fix_uid_perms", "fix_set_bits", "fix_gid_perms", "detect_world_writable", "CommonDirectoryModes", "FixImageSymlinks", "InfoRegen", "ConfigProtectInstall"]
 def triggerMeta : List (String × List String × List String × List Nat) := [("fix_uid_perms", ["pre_merge"], ["new_cset"], [0, 1]), ("fix_gid_perms", ["pre_merge"], ["new_cset"], [0, 1]), ("fix_set_bits", ["pre_merge"], ["new_cset"], [0, 1]), ("detect_world_writable", ["pre_merge"], ["new_cset"], [0, 1])]
 def installingModes : List Nat := [0, 1]
 end Pkgcore.Generated.C23
